@@ -24,6 +24,18 @@ use crate::{clock::Clock, manager::Capacities, modulator::Modulator};
 
 use self::{clocks::Clocks, mixer::Mixer, modulators::Modulators};
 
+/// Identifies a resource pool by its element type in verification hook calls (`crate::verif`).
+#[cfg(kira_verif)]
+fn verif_pool_id<T>() -> usize {
+	// FNV-1a of the type name
+	let mut h: u64 = 0xcbf29ce484222325;
+	for b in std::any::type_name::<T>().bytes() {
+		h ^= b as u64;
+		h = h.wrapping_mul(0x100000001b3);
+	}
+	h as usize
+}
+
 pub(crate) struct ResourceStorage<T> {
 	pub(crate) resources: Arena<T>,
 	new_resource_consumer: Consumer<(Key, T)>,
@@ -52,11 +64,15 @@ impl<T> ResourceStorage<T> {
 	}
 
 	pub fn remove_and_add(&mut self, remove_test: impl FnMut(&T) -> bool) {
+		#[cfg(kira_verif)]
+		crate::verif::point("res_remove", verif_pool_id::<T>(), 0);
 		for (_, resource) in self.resources.drain_filter(remove_test) {
 			self.unused_resource_producer
 				.push(resource)
 				.unwrap_or_else(|_| panic!("unused resource producer is full"));
 		}
+		#[cfg(kira_verif)]
+		crate::verif::point("res_refill", verif_pool_id::<T>(), 0);
 		while let Ok((key, resource)) = self.new_resource_consumer.pop() {
 			self.resources
 				.insert_with_key(key, resource)
@@ -130,7 +146,11 @@ impl<T> SelfReferentialResourceStorage<T> {
 	}
 
 	pub fn remove_and_add(&mut self, remove_test: impl FnMut(&T) -> bool) {
+		#[cfg(kira_verif)]
+		crate::verif::point("res_remove", verif_pool_id::<T>(), 0);
 		self.remove_unused(remove_test);
+		#[cfg(kira_verif)]
+		crate::verif::point("res_refill", verif_pool_id::<T>(), 0);
 		while let Ok((key, resource)) = self.new_resource_consumer.pop() {
 			self.resources
 				.insert_with_key(key, resource)
@@ -200,6 +220,8 @@ impl<T> ResourceController<T> {
 	}
 
 	pub fn try_reserve(&self) -> Result<Key, ResourceLimitReached> {
+		#[cfg(kira_verif)]
+		crate::verif::point("res_reserve", verif_pool_id::<T>(), 0);
 		// an arena with no slots can't reserve anything (and indexes out
 		// of bounds if asked to)
 		if self.arena_controller.capacity() == 0 {
@@ -211,7 +233,11 @@ impl<T> ResourceController<T> {
 	}
 
 	pub fn insert_with_key(&mut self, key: Key, resource: T) {
+		#[cfg(kira_verif)]
+		crate::verif::point("res_drain", verif_pool_id::<T>(), 0);
 		self.remove_unused();
+		#[cfg(kira_verif)]
+		crate::verif::point("res_push", verif_pool_id::<T>(), 0);
 		self.new_resource_producer
 			.get_mut()
 			.expect("new resource producer mutex poisoned")
